@@ -108,3 +108,132 @@ Proof.
     assert (Hrefl : str_eqb w w = true) by (apply list_eqb_refl; apply Z.eqb_refl).
     rewrite Hrefl. reflexivity.
 Qed.
+
+(* ------------------------------------------------------------------------------------------ *)
+(* the substitution fuel always suffices: every nested or repeated round adds at least one defined symbol to the
+   set of symbols already resolved on the way, a symbol met again there is an error, and there are only |table|
+   symbols *)
+
+Local Open Scope nat_scope.
+
+Definition unresolved (t : table) (resolved : list str) : nat :=
+  length (filter (fun kv => negb (mem (fst kv) resolved)) t).
+
+Lemma str_eqb_refl a : str_eqb a a = true.
+Proof. unfold str_eqb. induction a as [|x a IH]; cbn; [reflexivity|]. now rewrite Z.eqb_refl. Qed.
+
+Lemma lookup_in t w v : lookup t w = Some v -> exists v', In (w, v') t.
+Proof.
+  induction t as [|[k x] r IH]; cbn; [discriminate|].
+  destruct (str_eqb k w) eqn:E.
+  - intros _. apply str_eqb_eq in E. subst. exists x. now left.
+  - intros H. destruct (IH H) as [v' Hv]. exists v'. now right.
+Qed.
+
+Lemma mem_app w a b : mem w (a ++ b) = mem w a || mem w b.
+Proof. unfold mem. apply existsb_app. Qed.
+
+Lemma filter_length_le {A} (f g : A -> bool) l :
+  (forall x, In x l -> g x = true -> f x = true) -> length (filter g l) <= length (filter f l).
+Proof.
+  induction l as [|x l IH]; intros H; cbn; [lia|].
+  assert (IH' : length (filter g l) <= length (filter f l)) by (apply IH; intros y Hy; apply H; now right).
+  destruct (g x) eqn:Eg.
+  - rewrite (H x (or_introl eq_refl) Eg). cbn. lia.
+  - destruct (f x); cbn; lia.
+Qed.
+
+Lemma filter_length_lt {A} (f g : A -> bool) l x :
+  (forall y, In y l -> g y = true -> f y = true) -> In x l -> f x = true -> g x = false ->
+  length (filter g l) < length (filter f l).
+Proof.
+  induction l as [|y l IH]; intros H Hin Hf Hg; [destruct Hin|].
+  cbn. destruct Hin as [->|Hin].
+  - rewrite Hf, Hg. cbn.
+    assert (length (filter g l) <= length (filter f l)) by (apply filter_length_le; intros z Hz; apply H; now right). lia.
+  - assert (IH' : length (filter g l) < length (filter f l)) by (apply IH; auto; intros z Hz; apply H; now right).
+    destruct (g y) eqn:Eg.
+    + rewrite (H y (or_introl eq_refl) Eg). cbn. lia.
+    + destruct (f y); cbn; lia.
+Qed.
+
+(* adding names to the resolved set never increases the count, and a defined name not yet in it decreases it *)
+Lemma unresolved_mono t r1 r2 : (forall w, mem w r1 = true -> mem w r2 = true) -> unresolved t r2 <= unresolved t r1.
+Proof.
+  intros H. unfold unresolved. apply filter_length_le. intros [k v] _ Hg. cbn in *.
+  destruct (mem k r1) eqn:E; [|reflexivity]. rewrite (H k E) in Hg. discriminate.
+Qed.
+
+Lemma unresolved_lt t r1 r2 w v :
+  (forall x, mem x r1 = true -> mem x r2 = true) -> lookup t w = Some v -> mem w r1 = false -> mem w r2 = true ->
+  unresolved t r2 < unresolved t r1.
+Proof.
+  intros H Hl H1 H2. destruct (lookup_in t w v Hl) as [v' Hin]. unfold unresolved.
+  apply (filter_length_lt _ _ t (w, v')); auto.
+  - intros [k x] _ Hg. cbn in *. destruct (mem k r1) eqn:E; [|reflexivity]. rewrite (H k E) in Hg. discriminate.
+  - cbn. now rewrite H1.
+  - cbn. now rewrite H2.
+Qed.
+
+Lemma mem_cons_self w l : mem w (w :: l) = true.
+Proof. unfold mem. cbn. now rewrite str_eqb_refl. Qed.
+Lemma mem_cons_keep x w l : mem x l = true -> mem x (w :: l) = true.
+Proof. unfold mem. cbn. intros ->. apply orb_true_r. Qed.
+
+Theorem resolve_fuel_suffices : forall fuel t resolved line,
+  unresolved t resolved < fuel -> resolve fuel t resolved line <> OutOfFuel.
+Proof.
+  induction fuel as [|f IH]; intros t resolved line Hf; [lia|].
+  cbn [resolve].
+  (* the loop over the words of the line: never out of fuel; what it reports as replaced are defined names that were
+     not in the resolved set *)
+  assert (Hloop : forall ws ln replaced,
+    (forall x, In x replaced -> (exists v, lookup t x = Some v) /\ mem x resolved = false) ->
+    match (fix loop (ws : list str) (line : str) (replaced : list str) : result (str * list str) :=
+             match ws with
+             | [] => Ok (line, replaced)
+             | w :: r =>
+                 match lookup t w with
+                 | None => loop r line replaced
+                 | Some v =>
+                     if mem w resolved then Rejected
+                     else match resolve f t (w :: resolved) v with
+                          | Ok repl => loop r (replace_word w repl line) (w :: replaced)
+                          | Rejected => Rejected
+                          | OutOfFuel => OutOfFuel
+                          end
+                 end
+             end) ws ln replaced with
+    | Ok (_, replaced') => forall x, In x replaced' -> (exists v, lookup t x = Some v) /\ mem x resolved = false
+    | Rejected => True
+    | OutOfFuel => False
+    end).
+  { induction ws as [|w ws IHw]; intros ln replaced Hrep; [exact Hrep|].
+    destruct (lookup t w) as [v|] eqn:El; [|apply IHw; exact Hrep].
+    destruct (mem w resolved) eqn:Em; [exact I|].
+    assert (Hlt : unresolved t (w :: resolved) < f).
+    { assert (unresolved t (w :: resolved) < unresolved t resolved).
+      { apply (unresolved_lt t resolved (w :: resolved) w v); auto using mem_cons_keep, mem_cons_self. }
+      lia. }
+    pose proof (IH t (w :: resolved) v Hlt) as Hne.
+    destruct (resolve f t (w :: resolved) v) as [repl| |]; [|exact I|now elim Hne].
+    apply IHw. intros x [<-|Hx]; [split; [eauto | exact Em] | apply Hrep; exact Hx]. }
+  specialize (Hloop (words line) line [] ltac:(intros x [])).
+  destruct ((fix loop (ws : list str) (line0 : str) (replaced : list str) : result (str * list str) := _) (words line) line [])
+    as [[line' replaced']| |]; [|discriminate|contradiction].
+  destruct replaced' as [|w rest]; [discriminate|].
+  apply IH.
+  destruct (Hloop w (or_introl eq_refl)) as [[v Hv] Hm].
+  assert (unresolved t (resolved ++ w :: rest) < unresolved t resolved).
+  { apply (unresolved_lt t resolved _ w v); auto.
+    - intros x Hx. rewrite mem_app, Hx. reflexivity.
+    - rewrite mem_app, mem_cons_self. apply orb_true_r. }
+  lia.
+Qed.
+
+Corollary resolve_line_never_out_of_fuel t line : resolve_line t line <> OutOfFuel.
+Proof.
+  unfold resolve_line. apply resolve_fuel_suffices. unfold unresolved.
+  pose proof (filter_length_le (fun _ => true) (fun kv : str * str => negb (mem (fst kv) [])) t (fun _ _ _ => eq_refl)) as H.
+  assert (length (filter (fun _ : str * str => true) t) = length t) by (induction t as [|a t' IHt]; cbn; [reflexivity | now rewrite IHt]). lia.
+Qed.
